@@ -378,6 +378,16 @@ func judge(c *pkit.Ctx, pr *program) (map[string]string, string, bool) {
 			return sig, fmt.Sprintf("%s is not gofmt(original with the renamed identifiers substituted) [%s]\n--- expected\n%s\n--- actual\n%s", path, kind, exp, now), nt
 		}
 	}
+	if flagged && res.Exit == 0 && pr.outcome == "normal" && len(pats) == 1 && reRenameLog.MatchString(res.Stderr) {
+		// calls were renamed: every file that contains one of them has been rewritten with the new identifier, so
+		// the calls of the user's files and the generated functions fit together. A file that was left as it was
+		// although one of its calls was renamed shows as a call that does not fit the function of that name.
+		if cr, err := gorun.TypeCheck(dir, true, pats...); err == nil && len(cr.Errors) > 0 {
+			sig["check"] = "renamed-call-not-substituted"
+			return sig, fmt.Sprintf("goderive %v exited 0 and reports renamed calls, but the user's files do not fit the generated functions:\n%s\n--- log\n%s",
+				pr.flags, pkit.Trunc(strings.Join(cr.Errors, "\n"), 800), pkit.Trunc(res.Stderr, 600)), true
+		}
+	}
 	return nil, "", nt
 }
 
